@@ -26,6 +26,17 @@ def magnitudes(rng, tier):
     return ms
 
 
+def zero_slice_reqs(rng):
+    out = []
+    for n in (0, 1, 2, 3, 5, 8):
+        w = "w" + ",".join(["0"] * n) if n else "w"
+        for sg in "+-0":
+            for old in (0, -12345, B + 7, -(B * B)):
+                out.append("C09 i.assign_from_slice %s %s %s" % (wi(old), sg, w))
+            out.append("C09 i.from_slice %s %s" % (sg, w))
+            out.append("C09 i.new %s %s" % (sg, w))
+    return out
+
 def gen(rng, tier):
     reqs = []
     rounds = 8 if tier == "thorough" else 1
@@ -68,4 +79,4 @@ def gen(rng, tier):
     # api-coverage block: the inherent associated consts
     reqs.append("C19 u.inherent_zero")
     reqs.append("C19 i.inherent_zero")
-    return reqs
+    return reqs + zero_slice_reqs(rng)
